@@ -13,7 +13,8 @@ SMALL = [b"0", b"1", b"2", b"3", b"10"]
 LEADZ = [b"00", b"01", b"010", b"007"]
 PRE_WORDS = [b"alpha", b"beta", b"rc", b"a", b"b", b"pre", b"Alpha", b"Beta", b"BETA", b"RC", b"Rc", b"x-y", b"dev", b"SNAPSHOT", b"b2", b"-", b"z", b"Z", b"A", b"1a", b"0a", b"2-beta", b"-x", b"--", b"7f3c2e1", b"a1", b"-a"]
 PRE_NUMS = [b"0", b"1", b"2", b"10", b"01", b"00", b"-1", b"+1", b"2147483647", b"2147483648", b"9223372036854775807",
-            b"9223372036854775808"]
+            b"9223372036854775808", b"18446744073709551616", b"18446744073709551617", b"36893488147419103233",
+            b"99999999999999999999", b"100000000000000000000"]
 BUILD = [b"build", b"001", b"sha.5114f85", b"b-1", b"0"]
 
 
